@@ -116,17 +116,33 @@ def body_nodoc(fn):
 
 def guards_of(node, stop=None):
     """List of (test node, polarity) of the if-statements enclosing `node`
-    up to function `stop` (innermost last)."""
+    up to function `stop` (innermost last).  A leading `not` of the test is
+    folded into the polarity."""
     out = []
     child, p = node, parent(node)
     while p is not None and p is not stop:
         if isinstance(p, ast.If):
+            t, pol = p.test, None
             if any(child is s for s in p.body):
-                out.append((p.test, True))
+                pol = True
             elif any(child is s for s in p.orelse):
-                out.append((p.test, False))
+                pol = False
+            if pol is not None:
+                while isinstance(t, ast.UnaryOp) and isinstance(t.op, ast.Not):
+                    t, pol = t.operand, not pol
+                out.append((t, pol))
         child, p = p, parent(p)
     return list(reversed(out))
+
+
+def guard_texts(node, stop=None):
+    """The enclosing conditions of `node` as canonical positive statements
+    (source text without blanks): a false-arm guard is written negated."""
+    from .canon import negate
+    out = []
+    for t, pol in guards_of(node, stop):
+        out.append(ast.unparse(t if pol else negate(t)).replace(' ', ''))
+    return out
 
 
 def decorator_names(fn):
